@@ -26,28 +26,30 @@ def run(tier):
     n = runner.NCPU * 4
     # docs=S: every tree over keys {a,b}; docs=K: every tree over keys {a,b,"",',",\,e-acute,0}; leaves {1,2,"x",null};
     # docs=H: hand-shaped documents.  level=full adds every one-shot json_query overload under every result option.
+    # Stages that tally (no tally=0) partition the explored (expression, document) pairs: documents by size / key set,
+    # expression sets by minus=...; tally=0 stages re-run a subset under ASan+UBSan or with level=full.
     if q:
         stages = [
             (asan, ["G", "docs=H"]), (asan, ["G", "docs=K", "n=3"]), (fast, ["G", "docs=S", "n=4"]),
             (asan, ["P", "docs=H", "exprs=one,prefull,mid2,core3s,keys", "level=full"]),
-            (asan, ["P", "docs=S", "n=3", "exprs=one,core3s", "level=lite"]),
+            (asan, ["P", "docs=S", "n=3", "exprs=one,core3s", "level=lite", "tally=0"]),
             (fast, ["P", "docs=S", "n=2", "exprs=one,prefull,mid2,core3s", "level=full"]),
-            (fast, ["P", "docs=S", "n=4", "from=4", "exprs=one,core3s", "level=lite"]),
             (fast, ["P", "docs=S", "n=3", "from=3", "exprs=one,prefull,mid2,core3s", "level=lite"]),
+            (fast, ["P", "docs=S", "n=4", "from=4", "exprs=one,core3s", "level=lite"]),
             (fast, ["P", "docs=K", "n=2", "exprs=one,keys", "level=full"]),
             (fast, ["P", "docs=K", "n=3", "from=3", "exprs=one,keys", "level=lite"]),
         ]
     else:
         stages = [
-            (asan, ["G", "docs=H"]), (asan, ["G", "docs=K", "n=3"]), (fast, ["G", "docs=K", "n=4", "from=4"]), (fast, ["G", "docs=S", "n=5"]),
+            (asan, ["G", "docs=H"]), (asan, ["G", "docs=K", "n=3", "tally=0"]), (fast, ["G", "docs=K", "n=4"]), (fast, ["G", "docs=S", "n=5"]),
             (asan, ["P", "docs=H", "exprs=one,prefull,mid2,core3,keys", "level=full"]),
-            (asan, ["P", "docs=S", "n=3", "exprs=one,prefull,mid2,core3s", "level=lite"]),
-            (asan, ["P", "docs=K", "n=2", "exprs=one,keys", "level=full"]),
+            (asan, ["P", "docs=S", "n=3", "exprs=one,prefull,mid2,core3s", "level=lite", "tally=0"]),
+            (asan, ["P", "docs=K", "n=2", "exprs=one,keys", "level=full", "tally=0"]),
             (fast, ["P", "docs=S", "n=3", "exprs=one,prefull,mid2,core3", "level=full"]),
-            (fast, ["P", "docs=S", "n=4", "from=4", "exprs=mid2", "level=lite"]),
-            (fast, ["P", "docs=S", "n=5", "from=4", "exprs=one,prefull,core3", "level=lite"]),
+            (fast, ["P", "docs=S", "n=4", "from=4", "exprs=mid2,prefull", "minus=one,core3", "level=lite"]),
+            (fast, ["P", "docs=S", "n=5", "from=4", "exprs=one,core3", "level=lite"]),
             (fast, ["P", "docs=K", "n=3", "exprs=one,keys", "level=full"]),
-            (fast, ["P", "docs=K", "n=4", "from=4", "exprs=one,keys", "level=lite"]),
+            (fast, ["P", "docs=K", "n=4", "from=4", "exprs=keys", "level=lite"]),
         ]
     for b, st in stages:
         if ck.time_left() < 60:
@@ -55,19 +57,20 @@ def run(tier):
             break
         r = runner.run_slices(b, st, nslices=n, env=ENV)
         key = "pairs@" + " ".join(st)
-        ck.extra.setdefault("stages", {})[key] = {k: r.sum.get(k, 0) for k in ("pairs", "node_paths", "expressions", "evaluations")}
+        ck.extra.setdefault("stages", {})[key] = {k: r.sum.get(k, 0) for k in ("pairs", "pairs_rechecked_in_another_build_or_level", "node_paths", "evaluations")}
         ck.add(r)
     rej = sorted(c[len("rejected:"):] for c in ck.res.sets if c.startswith("rejected:"))
     ck.extra["generated_expressions_rejected_by_compiler"] = rej
-    ck.rule = ("Expression ASTs: $ followed by <= 3 steps, rendered to text and compiled by jsoncons. Step alphabet (~500 steps): "
+    ck.rule = ("Expression ASTs: $ followed by <= 3 steps, rendered to text and compiled by jsoncons. Step alphabet (499 steps): "
                "names for keys {a,b,'',',\",\\,e-acute,0} in dot, bracket single/double quoted, dot-quoted and \\u-escaped notation; indices 0,-1,5,1; "
                ".* and [*]; slices with start/stop in {none,0,1,-1,-5,5} and step in {none,1,2,-1,-2}; unions of 2 (and 3) of {name,index,slice,"
                "wildcard,filter}; descendant segments over names, wildcards, indices, slices, unions, filters; filters [?(p op lit)] with "
                "p in {@,@.a,@.k,@[0],@['b']}, op in {==,!=,<,<=,>,>=}, lit in {1,'x',true,null}, reversed operands, &&, ||, ! and parentheses; "
                "non-core steps (existence tests, length, length(), index expression, parent ^ and ^^ as last step). Sets: every 1-step expression; "
-               "4 prefixes x every step and every step x 3 suffixes; the complete 2-step product over a 108-step alphabet; the complete 3-step "
+               "4 prefixes x every step and every step x 3 suffixes; the complete 2-step product over a 109-step alphabet; the complete 3-step "
                "product over a 12-step (quick) / 24-step (thorough) alphabet. Documents: every tree with <= 4 (quick) / <= 5 (thorough) nodes over "
-               "keys {a,b}, every tree with <= 3 / <= 4 nodes over the 8-key alphabet, leaves {1,2,\"x\",null}, 7 hand-shaped documents. "
+               "keys {a,b}, every tree with <= 3 / <= 4 nodes over the 8-key alphabet, leaves {1,2,\"x\",null}, 7 hand-shaped documents "
+               "(quick: the 2-step product on <= 3-node documents, 1-step and 3-step on <= 4; thorough: 2-step on <= 4, 1-step and 3-step on <= 5). "
                "Per pair: value/path/callback results, nodups/sort/sort_descending, compiled vs one-shot, select_paths, json_replace "
                "(const char*, json rvalue, std::string rvalue, callback), an independent RFC 9535 reference evaluator for core selectors, "
                "document unchanged. Stage G: every node's normalized path through json_location::parse, to_string, jsonpath::get and as a query. "
@@ -79,7 +82,8 @@ def run(tier):
         "computed results (length of arrays/strings, documented extension) have no node in the document: checked as parent length, excluded from address identity",
         "existence tests, functions, index expressions and the parent operator are checked by the consistency oracles only (not core selectors)",
         "json_replace(root, expr, lvalue) does not compile (T deduced as a reference type fails is_json_traits_specialized): only prvalue/xvalue arguments exist to be tested",
-        "sort order demanded: component-wise, indices numerically, names bytewise, a prefix before its extensions",
+        "sort order demanded: component-wise, indices numerically, names bytewise, a prefix before its extensions; sort_descending (documented result option, used by json_replace) is its reverse",
+        "level=lite stages use one compiled expression per expression text for all documents and re-compile (one-shot json_query, json_replace) only where the selection is non-empty; level=full stages exercise every overload under every option",
     ]
     ck.finish(lambda sig: replay(sig))
 
